@@ -6,7 +6,7 @@
    functional definition), StandardExamples (6.10.3.5 verbatim), <>Finished under
    weak fairness.  Sensitivity control: with HideFix = FALSE (a function-like
    expansion forgets its own name) TLC must find the non-terminating behaviour.
-2. Generate -> replay: every finished behaviour of the families F1..F12 is one
+2. Generate -> replay: every finished behaviour of the families F1..F15 is one
    input; `chibicc -E` of the tree under test must print exactly the expected
    pp-token spellings (harness tokenizer, validated against Lexer.tla by C19 and
    here on a sample); a per-process timeout decides termination.  Inputs whose
@@ -14,6 +14,12 @@
    a constraint violation / undefined paste / unterminated invocation are "diag":
    the compiler must answer with output or a diagnostic, never a crash or hang.
    gcc -E -P is the tie-break oracle (BUILDER_GUIDE 1.4).
+   White space is part of the comparison wherever # makes it visible: a token is
+   preceded by a blank iff white space is written before it, or before the item
+   (macro name, parameter, #x, l ## r, __LINE__ ...) in whose place it stands (F13);
+   only next to an item that VANISHED is a blank optional.  A backslash outside
+   literals is a pp-token of its own and is stringized as it is (F14); a # that macro
+   replacement puts first on a line never starts a directive (F15).
 3. Directive layout (tla/pp/Layout.tla): comments and line splices at every token boundary of
    every kind of directive line; TLC checks that translation phases 2-3 give back the plain
    spelling's logical lines, every text is replayed in a process of its own.
@@ -27,7 +33,10 @@ _LOCK = threading.Lock()
 
 # family -> (number of cases, quick stride, thorough stride); strides are primes that do not divide the radices
 FAMS = {"F1": (140544, 127, 1), "F2": (44376, 53, 1), "F3": (6615, 11, 1), "F4": (12433, 7, 1), "F5": (21, 1, 1), "F6": (26, 1, 1),
-        "F7": (36980, 97, 1), "F8": (3200, 3, 1), "F9": (392, 1, 1), "F10": (110, 1, 1), "F11": (216, 1, 1), "F12": (18, 1, 1)}
+        "F7": (36980, 97, 1), "F8": (3200, 3, 1), "F9": (392, 1, 1), "F10": (110, 1, 1), "F11": (216, 1, 1), "F12": (18, 1, 1),
+        "F13": (1020, 1, 1), "F14": (24, 1, 1), "F15": (225, 1, 1)}
+MERGED = ("F5", "F9", "F10", "F11", "F12", "F14", "F15")      # always complete: one TLC run (pseudo-family FS) enumerates them all
+MERGED_DYN = ("F6", "F13")                                    # likewise (pseudo-family FD), one order of argument pre-expansion (__COUNTER__)
 
 EXTRAS = [   # closed hand-written list: expansion next to directives, shape of the remaining predefined dynamic macros
     ("emptyexp-then-directive", "#define E\nx E\n#define Y 1\nY\n", ["x", "1"]),
@@ -44,6 +53,11 @@ EXTRAS = [   # closed hand-written list: expansion next to directives, shape of 
 EXTRAS_D = [
     ("cmdline-ppnumber-if", ["-DV=0xFE", "-DW=0xAE", "-DX=1e"], "#if V == 254 && W == 174\nyes\n#else\nno\n#endif\n", ["yes"]),
     ("cmdline-ppnumber-stringize", ["-DV=0xFE", "-DX=1p"], "#define S(x) #x\n#define XS(x) S(x)\nXS(V z X w) V\n", ['"0xFE z 1p w"', "0xFE"]),
+    # tokens made by ## and # inside the operand of a computed #include (C10 owns the search; the headers are written by
+    # run_extras into the directory that -I names)
+    ("computed-include-angle-paste", ["-I@DIR@"], "#define INC(n) <c09x##n.h>\n#include INC(2)\n", ["c09x2_ok"]),
+    ("computed-include-quote-paste", ["-I@DIR@"], "#define Q(x) #x\n#define INC(n) Q(c09x##n.h)\n#include INC(2)\n", ["c09x2_ok"]),
+    ("computed-include-line-paste", ["-I@DIR@"], "#define CAT(a,b) a##b\n#define XCAT(a,b) CAT(a,b)\n#define INC <XCAT(c09x,__LINE__).h>\n#include INC\n", ["c09x4_ok"]),
 ]
 SHAPES = [("__DATE__", r'"[A-Z][a-z][a-z] [ 0-9][0-9] [0-9]{4}"'), ("__TIME__", r'"[0-9]{2}:[0-9]{2}:[0-9]{2}"'),
           ("__TIMESTAMP__", r'"[A-Z][a-z][a-z] [A-Z][a-z][a-z] [ 0-9][0-9] [0-9]{2}:[0-9]{2}:[0-9]{2} [0-9]{4}"'),
@@ -92,16 +106,18 @@ def expect_ok(ctx, module, cfg, what, **kw):
     return res
 
 
+DYN = ("F6", "F13")         # families with __COUNTER__ / __LINE__ / __FILE__: one process per case
+
+
 def expected(c, res):
     outs = c["outs"]
-    if c["fam"] == "F6":
+    if c["fam"] in DYN:
         outs = [ppcase.subst_dynamic(o, res["line"], res["file"]) for o in outs]
     return outs
 
 
 def matches(c, toks, outs):
-    fz = "fz" in c["flags"]
-    return ppcase.normalise(toks, fz) in [ppcase.normalise(o, fz) for o in outs]
+    return any(ppcase.toks_match(o, toks) for o in outs)
 
 
 def judge(ctx, chib, gcc, c, res, prop="C09"):
@@ -134,15 +150,15 @@ def judge(ctx, chib, gcc, c, res, prop="C09"):
         return True
     if res["rc"] != 0:
         sig = "rejected:%s:%s" % (feats, ppcase.errmsg(res["err"]))
-        what = "%s: well-defined input rejected (%s); expected %s" % (key, ppcase.errmsg(res["err"]), " ".join(outs[0]))
+        what = "%s: well-defined input rejected (%s); expected %s" % (key, ppcase.errmsg(res["err"]), ppcase.show(outs[0]))
     elif res["toks"] is None:
         sig = "garbled:%s:%s" % (feats, c["fam"])
         what = "%s: output structure broken: %r" % (key, (res["out"] or "")[:200])
     else:
         # same characters, different token boundaries: the printer let two tokens fuse
-        fused = "".join(res["toks"]) in ["".join(o) for o in outs]
+        fused = any(ppcase.tok_matches("".join(o), "".join(res["toks"])) for o in outs)
         sig = "%s:%s:%s" % ("fused" if fused else "tokens", feats, c["fam"])
-        what = "%s: expected `%s` got `%s`" % (key, " ".join(outs[0]), " ".join(res["toks"]))
+        what = "%s: expected `%s` got `%s`" % (key, ppcase.show(outs[0]), " ".join(res["toks"]))
     info.update(got=res["toks"], rc=res["rc"], err=res["err"][-300:], text=res["text"] or ppcase.render_case(c)[0], expected=outs)
     ctx.report(sig, what + "   input: " + ppcase.render_case(c)[0].replace("\n", " \\n "), case=info)
     return False
@@ -150,8 +166,8 @@ def judge(ctx, chib, gcc, c, res, prop="C09"):
 
 def replay_cases(ctx, chib, gcc, cases, prop="C09"):
     # one process per case: F6 (__COUNTER__ is global) and PS (nothing may precede the sequence under test)
-    ok = [c for c in cases if c["class"] == "ok" and c["fam"] not in ("F6", "PS")]
-    single = [c for c in cases if c["class"] == "ok" and c["fam"] in ("F6", "PS")]
+    ok = [c for c in cases if c["class"] == "ok" and c["fam"] not in DYN + ("PS",)]
+    single = [c for c in cases if c["class"] == "ok" and c["fam"] in DYN + ("PS",)]
     diag = [c for c in cases if c["class"] == "diag"]
     diag = vt.subsample(diag, ctx.seed, 5 if ctx.quick else 1)      # thorough: every one (the quick samples are subsets)
     res = chib.run_cases(ok)
@@ -168,6 +184,8 @@ def replay_cases(ctx, chib, gcc, cases, prop="C09"):
 
 
 def run_extras(ctx, chib):
+    for n in (2, 4):
+        open(os.path.join(chib.dir, "c09x%d.h" % n), "w").write("c09x%d_ok\n" % n)
     for name, text, exp in EXTRAS:
         rc, out, err, f = chib.run_text(text, "x-" + name)
         toks = pptok.lex(out) if rc == 0 else None
@@ -178,7 +196,7 @@ def run_extras(ctx, chib):
     for name, opts, text, exp in EXTRAS_D:
         f = os.path.join(chib.dir, "xd-%s.c" % name)
         open(f, "w").write(text)
-        rc, out, err = ppcase.run_limited(chib.cmd + opts + [f], chib.timeout)
+        rc, out, err = ppcase.run_limited(chib.cmd + [o.replace("@DIR@", chib.dir) for o in opts] + [f], chib.timeout)
         toks = pptok.lex(out) if rc == 0 else None
         ctx.note_case("extra:" + name)
         if toks != exp:
@@ -335,13 +353,12 @@ def run(ctx):
     chib, gcc = tools(ctx, tree)
     ctx.phase("build done")
     jobs = []
-    merged = ("F5", "F9", "F10", "F11", "F12")          # always complete: one TLC run (pseudo-family FS) enumerates all three
-    for fam, (n, qs, ts) in list(FAMS.items()) + [("FS", (0, 1, 1))]:
-        if fam in merged:
+    for fam, (n, qs, ts) in list(FAMS.items()) + [("FS", (0, 1, 1)), ("FD", (0, 1, 1))]:
+        if fam in MERGED + MERGED_DYN:
             continue
         stride = qs if q else ts
         cfg = ctx.cfg("pp", "Macro_gen.cfg", Family='"%s"' % fam, Stride=stride, Seed=ctx.seed % stride,
-                      ArgOrder='"ltr"' if fam == "F6" else '"any"')      # __COUNTER__: one order only
+                      ArgOrder='"ltr"' if fam == "FD" else '"any"')      # __COUNTER__: one order only
         jobs.append((fam, cfg, cfg[:-4] + ".ndjson"))
     big = {"F1": 6, "F2": 4, "F7": 4}
     cap = int(os.environ.get("VERIF_TLC_CAP", "0"))       # development aid on a shared machine: fewer TLC threads
@@ -382,12 +399,12 @@ def run(ctx):
     # the tokenizer that judged: spot-validation against Lexer.tla (the whole domain is validated by C19)
     ctx.assumptions += [
         "harness tokenizer (pptok.py) is validated against Lexer.tla on the complete pair/triple domain by check C19",
-        "white space inside a stringized argument is compared exactly only when every token of the argument was written in the source (flag fz otherwise)",
+        "white space inside a stringized text is compared exactly, except next to an item that vanished (empty expansion, empty argument, absent __VA_OPT__): a blank is optional there (Macro.tla der/tv; 52 of the 999 well-defined F13 texts have such a place)",
         "[GNU] `, ## __VA_ARGS__` follows gcc/clang (comma deleted only when the variable argument is absent; operand not pre-expanded); present-but-empty variable arguments are excluded",
         "__LINE__ only in invocations written on one line; __DATE__/__TIME__/__TIMESTAMP__/__BASE_FILE__ are checked for shape only",
         "6.10.3.4p4 situations carry both conforming results (hide set of the name alone / intersected with the closing parenthesis)"]
     return ctx.finish(
-        rule="case = one (definitions, invocation) input of the families F1..F6 of MacroFamilies.tla, run to completion by Macro.tla and replayed through chibicc -E; non-trivial = the machine took at least 2 steps; distinct = distinct (family, index)",
+        rule="case = one (definitions, invocation) input of the families F1..F15 of MacroFamilies.tla, run to completion by Macro.tla and replayed through chibicc -E; non-trivial = the machine took at least 2 steps; distinct = distinct (family, index)",
         exhaustive=not q,
         extra=dict(replayed=total))
 
